@@ -16,7 +16,7 @@ RULE = ('stage sequences of 1-4 documents over priority / !del / !merge tags at 
         'tag, and the transformation touches a container at depth >=1; distinct = hash of the case')
 BUDGET = {'quick': (4, 350), 'thorough': (16, 6000)}
 SHRINK_CAP = {'quick': 300, 'thorough': 5000}
-ASSUMPTIONS = ['a mapping merged onto a list in which two keys spell the same element (1 and -2) writes that element twice: the key-permutation relation is skipped for such builds (detected by a probe on the list merge)',
+ASSUMPTIONS = ['a mapping merged onto a list in which two keys spell the same element (1 and -2) writes that element twice: the key-permutation relation is skipped for such builds (detected by a probe on the list merge), and so is a failing repeat-last relation when the repeated document has negative keys and such a collision occurred (the second pass applies the first of the two values to the outcome of the last one)',
                'soundness limits of DESIGN.md section 6']
 
 
@@ -111,9 +111,16 @@ def _run_case(case):
     probes.counters['prefilter_drops'] = 0
     probes.counters['partial_list_prune'] = 0
     probes.counters['list_onto_surviving_mapping'] = 0
+    probes.counters['colliding_index_keys'] = 0
     _build(texts)
     rep = _build(texts + [texts[-1]])
-    if not same(base, rep):
+    neg_last = any(isinstance(p[-1], int) and p[-1] < 0 for p, _ in tdoc.walk(docs[-1]) if p)
+    if not same(base, rep) and neg_last and probes.installed['collision'] and probes.counters['colliding_index_keys']:
+        # the repeated document spells one list element with two keys (0 and -2 on a list of two) and so writes it twice: the second
+        # pass applies the first of the two values to the outcome of the last one - not a repetition of one statement (as for the key
+        # permutation below, where such documents are skipped for the same reason)
+        labels.add('idempotence-skipped:two-keys-spell-one-list-element')
+    elif not same(base, rep):
         # open finding: attributed only when, in these builds, a list merge left partial survivors (root cause): the list pre-filter
         # dropped nodes of the newer value, or the pruning of an older list removed some but not all of its elements
         fid = 'list-prefilter-partial-survivor' if (probes.counters['prefilter_drops'] or probes.counters['partial_list_prune']
